@@ -8,8 +8,10 @@ import (
 	"fmt"
 	"io"
 	"log/slog"
+	"net"
 	"net/http"
 	"net/http/httptest"
+	"os"
 	"sort"
 	"strconv"
 	"strings"
@@ -31,7 +33,8 @@ import (
 //
 // write   case := (0 cfg ty kind script impl)
 //   cfg := (min_ns max_ns max_retries retry429) ; kind := 0 vt | 1 gogo | 2 generic | 3 not-proto | 4 marshal-error
-//   script := list (outcome cancel) ; outcome := (0) drop | (1) body-error | (2 status samples hist exem retry_after ra_date?)
+//   script := list (outcome cancel) ; outcome := (0) transport fault (connection drop, or - caller's context alive - a
+//     client-side timeout / an error wrapping context.DeadlineExceeded, context.Canceled, os.ErrDeadlineExceeded, net timeout) | (1) body-error | (2 status samples hist exem retry_after ra_date?)
 //   cancel := 0 none | 1 before send | 2 after response | 3 in the backoff wait
 //   impl := (reqs err stats gaps) ; req := (ctype cenc version retry? body_ok) ; err := (code arg)
 // conc    case := (1 n recv results corrupt) ; recv := (id attempt seen) sorted ; result := (id errcode samples hist exem)
@@ -136,7 +139,8 @@ func bodyOK(kind int, body, expected []byte, msg any) bool {
 // ---------- scripted server ----------
 
 type attemptSpec struct {
-	kind                            int // 0 drop, 1 body error, 2 response
+	kind                            int // 0 drop, 1 body error, 2 response, 3 client-side fault (answer discarded), 4 server stalls until the client's own Timeout fires
+	fault                           int // kind 3: which error the transport reports
 	status                          int
 	samples, hist, exem, retryAfter string
 	futureDate                      bool // Retry-After = an HTTP date 1-2 s ahead, computed when answering
@@ -161,6 +165,7 @@ type wcase struct {
 	msg      any
 	expected []byte
 	timing   bool
+	cliTmo   bool // use the http.Client with its own Timeout
 	tags     []string
 
 	mu        sync.Mutex
@@ -227,6 +232,15 @@ func (s *scriptServer) ServeHTTP(w http.ResponseWriter, r *http.Request) {
 	switch a.kind {
 	case 0:
 		drop(w, "")
+	case 3: // answered normally; the client-side transport reports a fault instead of this response
+		w.Header().Set("X-Prometheus-Remote-Write-Samples-Written", "9")
+		w.WriteHeader(http.StatusOK)
+	case 4: // stall until the client gives up (its own Timeout), the caller's context stays alive
+		select {
+		case <-r.Context().Done():
+		case <-time.After(10 * time.Second):
+		}
+		drop(w, "")
 	case 1:
 		drop(w, "HTTP/1.1 200 OK\r\nContent-Length: 64\r\nContent-Type: text/plain\r\n\r\npartial")
 	default:
@@ -252,6 +266,26 @@ func (s *scriptServer) ServeHTTP(w http.ResponseWriter, r *http.Request) {
 	}
 }
 
+type netTimeout struct{}
+
+func (netTimeout) Error() string   { return "i/o timeout" }
+func (netTimeout) Timeout() bool   { return true }
+func (netTimeout) Temporary() bool { return true }
+
+// transportFaults are errors a RoundTripper can report while the CALLER's context is still alive.
+var transportFaults = []struct {
+	name string
+	err  error
+}{
+	{"deadline-exceeded", context.DeadlineExceeded},
+	{"wrapped-deadline-exceeded", fmt.Errorf("dial tcp 10.0.0.1:443: i/o timeout: %w", context.DeadlineExceeded)},
+	{"canceled", context.Canceled},
+	{"wrapped-canceled", fmt.Errorf("transport: request aborted: %w", context.Canceled)},
+	{"os-deadline-exceeded", os.ErrDeadlineExceeded},
+	{"net-timeout", &net.OpError{Op: "dial", Net: "tcp", Err: netTimeout{}}},
+	{"net-read-deadline", &net.OpError{Op: "read", Net: "tcp", Err: os.ErrDeadlineExceeded}},
+}
+
 // caseRT tags the request with its case and cancels the context where the script says so.
 type caseRT struct{ base http.RoundTripper }
 
@@ -274,6 +308,13 @@ func (t *caseRT) RoundTrip(req *http.Request) (*http.Response, error) {
 	req2 := req.Clone(req.Context())
 	req2.Header.Set("X-Verif-Case", c.key)
 	resp, err := t.base.RoundTrip(req2)
+	if k < len(c.script) && c.script[k].kind == 3 {
+		if err == nil {
+			io.Copy(io.Discard, resp.Body)
+			resp.Body.Close()
+		}
+		resp, err = nil, transportFaults[c.script[k].fault].err
+	}
 	if ck == 2 {
 		if err == nil {
 			b, _ := io.ReadAll(resp.Body)
@@ -381,7 +422,11 @@ func genScript(r *emit.Rng, n int, tags *[]string) []attemptSpec {
 	var s []attemptSpec
 	for i := 0; i < n; i++ {
 		var a attemptSpec
-		switch x := r.Intn(10); {
+		switch x := r.Intn(12) - 2; {
+		case x < 0:
+			a.kind = 3
+			a.fault = r.Intn(len(transportFaults))
+			*tags = append(*tags, "outcome:client-fault-"+transportFaults[a.fault].name)
 		case x < 2:
 			a.kind = 0
 			*tags = append(*tags, "outcome:drop")
@@ -459,7 +504,7 @@ func genWriteCase(r *emit.Rng, idx int) *wcase {
 		c.tags = append(c.tags, "cancel:before-send")
 	case 1:
 		i := r.Intn(len(c.script))
-		if c.script[i].kind != 1 {
+		if c.script[i].kind == 0 || c.script[i].kind == 2 {
 			c.script[i].cancel = 2
 			c.tags = append(c.tags, "cancel:after-response")
 		}
@@ -489,6 +534,17 @@ func timingCases(base int) []*wcase {
 	mk(1, v1Name, attemptSpec{kind: 2, status: 429, retryAfter: "1"})
 	mk(2, v2Name, attemptSpec{kind: 2, status: 500, futureDate: true, raDate: &one})
 	mk(3, v2Name, attemptSpec{kind: 2, status: 503, retryAfter: "+1", samples: "2"})
+	// the http.Client's own Timeout fires while the server stalls; the caller's context is alive, so Write retries
+	tmo := func(i int, ty string, script []attemptSpec) {
+		c := &wcase{key: "c" + strconv.Itoa(i), min: time.Microsecond, max: 10 * time.Microsecond, maxRetr: 3, retry429: true,
+			ty: ty, kind: 2, cliTmo: true, tags: []string{"outcome:client-timeout", "path:generic", "size:small"}}
+		c.msg, c.expected = mkMsg(2, uint64(base+100+i), []byte("client timeout"))
+		c.script = script
+		out = append(out, c)
+	}
+	tmo(0, v1Name, []attemptSpec{{kind: 4}, {kind: 2, status: 200}})
+	tmo(1, v2Name, []attemptSpec{{kind: 2, status: 503, samples: "2"}, {kind: 4}, {kind: 2, status: 204, samples: "1"}})
+	tmo(2, v2Name, []attemptSpec{{kind: 4}, {kind: 4}, {kind: 2, status: 400}})
 	return out
 }
 
@@ -526,7 +582,7 @@ func (c *wcase) term() string {
 	for _, a := range c.script {
 		var o string
 		switch a.kind {
-		case 0:
+		case 0, 3, 4:
 			o = emit.C(0)
 		case 1:
 			o = emit.C(1)
@@ -562,6 +618,7 @@ func runWriteStream(c *cli.Ctx, rng *emit.Rng, direct *[]map[string]interface{})
 	ts := httptest.NewServer(srv)
 	defer ts.Close()
 	client := &http.Client{Transport: &caseRT{base: &http.Transport{DisableKeepAlives: true}}}
+	tmoClient := &http.Client{Transport: &caseRT{base: &http.Transport{DisableKeepAlives: true}}, Timeout: time.Second}
 
 	n := 700 * c.Scale
 	cases := timingCases(1 << 40)
@@ -586,6 +643,8 @@ func runWriteStream(c *cli.Ctx, rng *emit.Rng, direct *[]map[string]interface{})
 				var api *remote.API
 				if hook {
 					api = newAPI(ts.URL, cs, client, true)
+				} else if cs.cliTmo {
+					api = newAPI(ts.URL, cs, tmoClient, false)
 				} else {
 					k := apiKey{cs.min, cs.max, cs.maxRetr, cs.retry429}
 					apiMu.Lock()
